@@ -52,6 +52,7 @@ type genOpts struct {
 	refs       bool // by-reference strings/keys
 	maxDepth   int
 	deepChance int // 1/deepChance of a very deep nest
+	longStr    bool // strings and keys of 32-64 KiB now and then
 }
 
 func (r *rng) genNum(nk int, o genOpts) scalar {
@@ -147,6 +148,16 @@ var strPool = [][]byte{
 var badUtf8 = [][]byte{{0xff}, {0xc0, 0x80}, {0xe2, 0x80}, {0xed, 0xa0, 0x80}, {0xf4, 0x90, 0x80, 0x80}, {0x80}, {'a', 0xc3}, {0xc3, '"'}, {0xf0, 0x9f, 0x98}, {'\\', 0xff}, {'\n', 0xe9}}
 
 func (r *rng) genStr(o genOpts) []byte {
+	if o.longStr && r.chance(1, 150) {
+		// lengths around the 16-bit marker boundaries (UBJSON has no unsigned 16-bit length);
+		// only where the models handle them in reasonable time (encoder kinds)
+		n := []int{32767, 32768, 40000, 65535, 65536}[r.n(5)]
+		b := make([]byte, n)
+		for i := range b {
+			b[i] = byte('a' + i%26)
+		}
+		return b
+	}
 	switch r.n(11) {
 	case 10:
 		// a long string that needs escaping in JSON: raw lengths sweep the region around the
